@@ -1045,3 +1045,78 @@ fire('ref6-search-helper-first-type-only', ['C09'], 'C09.LOOP',
 fire('ref6-search-helper-swallows-everything', ['C09'], 'C09.LOOP',
      (LAB, 'Lab.cached_tasks', _INNER, "            task = self._load_for_key(task_types, key)\n            if task is not None:\n                tasks.append(task)\n"),
      (LAB, None, "    def is_cached(self, task: Task) -> bool:", _HELPER % ('task_types', 'Exception', 'continue', 'return None') + "    def is_cached(self, task: Task) -> bool:"))
+
+
+# -- round-7 obligations ----------------------------------------------------------------------------------------------------
+MON = 'labtech/monitor.py'
+TASKS = 'labtech/tasks.py'
+SER = 'labtech/serialization.py'
+fire('r7-top-n-negated-slice', ['C01', 'C10'], 'SWEEP.SLICE-BOUND-SIGN',
+     (MON, 'TaskMonitor._top_task_lines', "        task_infos = task_infos[:self.top_n]", "        task_infos = task_infos[-self.top_n:]"))
+silent('r7-top-n-negated-slice-guarded', ['C01', 'C10'],
+       (MON, 'TaskMonitor._top_task_lines', "        task_infos = task_infos[:self.top_n]", "        if self.top_n > 0:\n            task_infos = list(reversed(list(reversed(task_infos))[-self.top_n:]))\n        else:\n            task_infos = []"))
+fire('r7-dead-marking-skipped-on-busy-rounds', ['C05', 'C11', 'C10'], 'C11.DEAD-DETECT',
+     (PROC, 'ProcessExecutor._consume_result_queue', "        for future in dead_process_futures:", "        if self._result_queue.qsize() > 0:\n            return\n        for future in dead_process_futures:"))
+fire('r7-max-workers-clamped', ['C04', 'C05'], 'C04.DEFAULT',
+     (PROC, 'ProcessExecutor.__init__', "self.max_workers = os.cpu_count() if max_workers is None else max_workers", "self.max_workers = os.cpu_count() if max_workers is None else min(max_workers, os.cpu_count())"))
+fire('r7-metadata-not-ascii', ['C06', 'C09'], 'C07.JSON-OPTIONS',
+     (CACHE, 'BaseCache.save', "json.dump(metadata, metadata_file, indent=2)", "json.dump(metadata, metadata_file, indent=2, ensure_ascii=False)"))
+silent('r7-key-dumps-not-ascii-but-utf8-encoded', ['C06', 'C07', 'C09', 'C15'],
+       (CACHE, 'BaseCache.cache_key', "json.dumps(self.serializer.serialize_task(task)).encode('utf-8')", "json.dumps(self.serializer.serialize_task(task), allow_nan=True).encode('utf-8')"))
+fire('r7-key-allow-nan-off', ['C15', 'C07'], 'C07.JSON-OPTIONS',
+     (CACHE, 'BaseCache.cache_key', "json.dumps(self.serializer.serialize_task(task))", "json.dumps(self.serializer.serialize_task(task), allow_nan=False)"))
+fire('r7-key-default-str', ['C07'], 'C07.JSON-OPTIONS',
+     (CACHE, 'BaseCache.cache_key', "json.dumps(self.serializer.serialize_task(task))", "json.dumps(self.serializer.serialize_task(task), default=str)"))
+fire('r7-nonfinite-floats-as-strings', ['C07', 'C01', 'C06'], 'C07.SCALAR-IDENTITY',
+     (SER, 'Serializer.serialize_value', "        elif isinstance(value, Enum):\n            return self.serialize_enum(value)\n", "        elif isinstance(value, Enum):\n            return self.serialize_enum(value)\n        elif isinstance(value, float) and value != value:\n            return 'nan'\n"))
+fire('r7-filter-default-own-namespace', ['C16'], 'C16.FILTER-DEFAULT',
+     (TASKS, 'task', "        if not hasattr(cls, 'filter_context'):", "        if 'filter_context' not in vars(cls):"))
+silent('r7-filter-default-getattr-none', ['C16'],
+       (TASKS, 'task', "        if not hasattr(cls, 'filter_context'):", "        if getattr(cls, 'filter_context', None) is None:"))
+fire('r7-filter-default-not-identity', ['C16'], 'C16.FILTER-DEFAULT',
+     (TASKS, '_task_filter_context_default', "    return context", "    return dict(context)"))
+fire('r7-release-loop-under-suppress', ['C17'], 'C17.BATCH-ALL',
+     (PROC, 'ProcessRunner.remove_results', "        for task in tasks:\n            if task not in self.results_map:\n                continue\n            logger.debug(f\"Removing result from in-memory cache for task: '{task}'\")\n            del self.results_map[task]",
+      "        try:\n            for task in tasks:\n                del self.results_map[task]\n        except KeyError:\n            pass"))
+silent('r7-release-loop-inner-try', ['C17', 'C02', 'C01'],
+       (PROC, 'ProcessRunner.remove_results', "            if task not in self.results_map:\n                continue\n            logger.debug(f\"Removing result from in-memory cache for task: '{task}'\")\n            del self.results_map[task]",
+        "            self.results_map.pop(task, None)"))
+fire('r7-log-queue-plain', ['C19'], 'C19.LOG-QUEUE-MANAGED',
+     (PROC, 'ProcessRunner.__init__', "self.log_queue = multiprocessing.Manager().Queue(-1)", "self.log_queue = multiprocessing.Queue(-1)"))
+silent('r7-mp-context-hoisted', ['C16', 'C19'],
+       (PROC, 'ProcessRunner.__init__', "        self.executor = ProcessExecutor(\n            mp_context=self._get_mp_context(),", "        mp_context = self._get_mp_context()\n        self.executor = ProcessExecutor(\n            mp_context=mp_context,"))
+_DD_ADD = "            self.task_to_direct_dependencies[task].add(dependency)\n"
+fire('r7-direct-deps-aliased-and-pruned', ['C17', 'C02'], 'C17.DEPS-OWNED',
+     (LAB, 'TaskState.insert_task', _DD_ADD, ""),
+     (LAB, 'TaskState.insert_task', "        for dependency in dependencies:", "        self.task_to_direct_dependencies[task] = dependencies\n        for dependency in dependencies:"),
+     (LAB, 'TaskState.process_tasks', "            all_dependencies += dependency_tasks", "            for dependency_task in list(dependency_tasks):\n                if id(dependency_task) in self.processed_task_ids:\n                    dependency_tasks.remove(dependency_task)\n            all_dependencies += dependency_tasks"))
+silent('r7-direct-deps-whole-copy', ['C17', 'C02', 'C01', 'C11', 'C03'],
+       (LAB, 'TaskState.insert_task', _DD_ADD, ""),
+       (LAB, 'TaskState.insert_task', "        for dependency in dependencies:", "        self.task_to_direct_dependencies[task] = set(dependencies)\n        for dependency in dependencies:"))
+silent('r7-direct-deps-aliased-never-changed', ['C17', 'C02', 'C01', 'C11'],
+       (LAB, 'TaskState.insert_task', _DD_ADD, ""),
+       (LAB, 'TaskState.insert_task', "        for dependency in dependencies:", "        self.task_to_direct_dependencies[task] = dependencies\n        for dependency in dependencies:"))
+fire('r7-file-guard-swallowed-by-reparented-error', ['C18'], 'C18.GUARDED-FILE',
+     (STOR, 'LocalStorage.file_handle', "        file_path = (key_path / filename).resolve()\n        if file_path.parent != key_path:\n            raise StorageError((f\"Filename '{filename}' should only reference a directory directly \"\n                                f\"under the storage key directory '{key_path}'\"))",
+      "        file_path = (key_path / filename).resolve()\n        try:\n            if file_path.parent != key_path:\n                raise StorageError('outside')\n        except OSError:\n            pass"))
+_PCT_DEF = "        def process_completed_tasks():\n            # Wait up to a short delay before allowing the\n            # task monitor to update.\n            for task, res in runner.wait(timeout_seconds=0.5):"
+_PCT_NEW = "        def poll_runner():\n            return runner.wait(timeout_seconds=0.5)\n\n        def process_completed_tasks(completed):\n            for task, res in completed:"
+_HOIST = [
+    (LAB, 'TaskCoordinator.run', _PCT_DEF, _PCT_NEW),
+    (LAB, 'TaskCoordinator.run', "                        ready_tasks = state.get_ready_tasks()\n", "                        ready_tasks = state.get_ready_tasks()\n                        completed = poll_runner()\n"),
+    (LAB, 'TaskCoordinator.run', "                            )\n                        process_completed_tasks()", "                            )\n                        process_completed_tasks(completed)"),
+    (LAB, 'TaskCoordinator.run', "                        while runner.pending_task_count() > 0:\n                            process_completed_tasks()", "                        while runner.pending_task_count() > 0:\n                            process_completed_tasks(poll_runner())"),
+    (LAB, 'TaskCoordinator.run', "                        # tasks have been killed.\n                        process_completed_tasks()", "                        # tasks have been killed.\n                        process_completed_tasks(poll_runner())"),
+]
+silent('r7-wait-iterator-hoisted-lazy', ['C05', 'C11', 'C01', 'C10', 'C14', 'C17', 'C02'], *_HOIST)
+fire('r7-wait-iterator-hoisted-eager-serial', ['C05'], 'C05.SUBMIT-ALL', *_HOIST,
+     ('labtech/runners/serial.py', 'SerialRunner.wait', "    def wait(self, *, timeout_seconds: Optional[float]) -> Iterator[tuple[Task, ResultMeta | BaseException]]:", "    def wait(self, *, timeout_seconds: Optional[float]) -> Iterator[tuple[Task, ResultMeta | BaseException]]:\n        return iter(list(self._wait(timeout_seconds=timeout_seconds)))\n\n    def _wait(self, *, timeout_seconds: Optional[float]) -> Iterator[tuple[Task, ResultMeta | BaseException]]:"))
+fire('r7-hook-built-per-class-installed-conditionally', ['C15'], 'C15.HOOKS-PER-TYPE',
+     (TASKS, None, "def _task__setstate__(self: Task, state: dict[str, Any]) -> None:", "def _make_setstate(cls):\n    names = frozenset(f.name for f in fields(cls))\n\n    def _setstate(self, state):\n        assert names is not None\n        _task__setstate__(self, state)\n\n    return _setstate\n\n\ndef _task__setstate__(self: Task, state: dict[str, Any]) -> None:"),
+     (TASKS, 'task', "        cls.__setstate__ = _task__setstate__", "        if not is_task_type(cls):\n            cls.__setstate__ = _make_setstate(cls)"))
+UTILS = 'labtech/utils.py'
+_RATE = [(UTILS, 'LoggerFileProxy.flush', "        if self.bufs:\n", "        if self.bufs and not self.muted:\n"),
+         (UTILS, None, "    whitespace_only_re = re.compile(r'[\\s]*')\n", "    whitespace_only_re = re.compile(r'[\\s]*')\n    muted = 0\n")]
+silent('r7-flush-dormant-switch', ['C19'], *_RATE)
+fire('r7-flush-switch-turned-on-by-worker', ['C19'], 'C19.EMIT-THEN-CLEAR', *_RATE,
+     (PROC, 'ProcessRunner._subprocess_func', "        sys.stderr = LoggerFileProxy(logger.error, 'Captured STDERR:\\n')  # type: ignore[assignment]\n", "        sys.stderr = LoggerFileProxy(logger.error, 'Captured STDERR:\\n')  # type: ignore[assignment]\n        sys.stderr.muted = 1\n"))
